@@ -5,6 +5,7 @@
 //verif:cover VerifC12Programs committed refused-after-commit refused-after-cancel rerun-of-done-split-refused commit-without-split-refused
 //verif:cover VerifC12Crash split-crashed-then-rerun commit-crashed-then-retried replay-of-running-split-after-termination commit-retried-on-the-same-object fault-while-operating-on-a-terminated-diamond
 //verif:cover VerifC12SplitFaults split-upload-failed
+//verif:cover VerifC12CancelFaults cancel-failed
 //verif:cover VerifC12Race two-commits commit-and-cancel switched checksummed-store overlapping-runs-of-one-split
 package core
 
@@ -468,5 +469,40 @@ func VerifC12SplitFaults() {
 	vAssert(e == nil && vSameKeys(got, want), "bundle-holds-exactly-the-files-of-the-recorded-run")
 	if e == nil {
 		vAssert(got["a"] == w.keyOf(wantA), "split-content-is-that-of-the-recorded-run")
+	}
+}
+
+// VerifC12CancelFaults: a cancel hit by one transient fault at any store call: when it reports success the diamond
+// is canceled and refuses commits; when it reports failure the diamond is still usable or canceled, never half-way,
+// and no bundle appears.
+func VerifC12CancelFaults() {
+	vBudget(600000000)
+	vUnwind(300000)
+	w := vNewDiamondWorld()
+	vNextSecond()
+	vAssert(w.splitAdd("s1", vFilesV1, []string{"a", "c"}) == nil, "split")
+	cr := &vCrasher{stores: []*vStore{w.meta, w.vmeta, w.blob}, allCalls: true, transient: true}
+	cr.crashAt = vInt("faultAt", 1, 12)
+	cr.install()
+	vNextSecond()
+	err := w.cancel()
+	cr.revive()
+	vAssume(cr.crashed)
+	vAssert(len(w.bundleIDs()) == 0, "cancel-produces-no-bundle")
+	dd, gerr := GetDiamond("r", vDiamond, w.stores(), DiamondLogger(zap.NewNop()))
+	vAssert(gerr == nil, "diamond-readable")
+	if err == nil {
+		vCover("cancel-survived-the-fault")
+		vAssert(dd.State == model.DiamondCanceled, "cancel-that-reports-success-canceled-the-diamond")
+	} else {
+		vCover("cancel-failed")
+		vAssert(dd.State == model.DiamondCanceled || dd.State == model.DiamondInitialized, "diamond-is-canceled-or-still-usable")
+	}
+	vNextSecond()
+	_, cerr := w.commit(model.EnableConflicts)
+	if dd.State == model.DiamondCanceled {
+		vAssert(cerr != nil && len(w.bundleIDs()) == 0, "commit-refused-on-a-canceled-diamond")
+	} else {
+		vAssert(cerr == nil && len(w.bundleIDs()) == 1, "commit-works-on-a-diamond-whose-cancel-failed")
 	}
 }
